@@ -990,11 +990,13 @@ func checkRuns(c *hk.Ctx, viol func(p, oracle, sig, format string, a ...any), w 
 		if es.start == 0 {
 			continue
 		}
+		if es.h.Await != es.h.Trigger {
+			// a call awaited later runs at an unspecified time after its trigger point (possibly
+			// while a later transition is under way): it says nothing about where a run ends
+			continue
+		}
 		if lastOfRun != nil && es.br != lastOfRun {
 			cur, lastOfRun = nil, nil
-		}
-		if es.h.Await != es.h.Trigger {
-			continue // a call awaited later runs at an unspecified time after its trigger point
 		}
 		v := es.vars
 		rn, st := v["run_number"], v["run_start_time_ms"]
